@@ -588,7 +588,9 @@ Fixpoint non_idle_fsm (fuel : nat) (pkt : option pdu) : D unit :=
   b <- step_is DS_TRANSFER_COMPLETION ;;
   when b handle_transfer_completion ;;;
   b <- step_is DS_SENDING_FINISHED ;;
-  when b (prepare_finished_pdu ;;; handle_finished_pdu_sent) ;;;
+  when b (n <- gets d_ready ;;
+          (* PDUs queued earlier in this call go out first; the Finished PDU is generated by the next call (F8 repair) *)
+          if 0 <? n then ret tt else (prepare_finished_pdu ;;; handle_finished_pdu_sent)) ;;;
   b <- step_is DS_WAITING_FOR_FINISHED_ACK ;;
   when b
     (handle_waiting_for_finished_ack
